@@ -42,14 +42,20 @@ RULE = ("metamorphic pairs of real runs, maxiters <= 5, <= 36 cells, ranks 1-2: 
         "gcp losses are not scale-equivariant: skipped); relabel = X vs X.permute(p) with guess/ranks permuted and "
         "dimorder' = [p.index(m) for m in dimorder] for cp_als, hosvd, tucker_als only (cp_apr and gcp have no mode-order "
         "parameter and sweep modes 0..N-1, so a relabelled run is a different algorithm: skipped). Data: integer "
-        "low-rank-plus-noise (counts for cp_apr), with zero entries, and for cp_apr an optional all-zero slice. "
-        "non-trivial = data not all-equal, and for relabel a non-identity permutation of a non-cubical shape or non-symmetric data; "
+        "low-rank-plus-noise (counts for cp_apr), with zero entries, and for cp_apr an optional all-zero slice; every mode-n "
+        "unfolding has exact rank >= the requested rank (checked with Fractions in the generator), Tucker ranks satisfy "
+        "r_n <= prod of the others, start columns are not nearly parallel (exact Gram-determinant test) - so the sub-problems are "
+        "well posed and rounding is not amplified. cp_apr PQNR cases where pyttb raises its own L-BFGS assertion identically under "
+        "both presentations are skipped. non-trivial = data not all-equal and, for relabel, a non-identity permutation; "
         "distinct = distinct (op, both run descriptions)")
 EXPLANATION = ("Each case is two real pyttb runs differing only in presentation; both observed models (raw weights/factors/core as "
                "exact rationals) are expanded by den_k / den_t in Coq over all subscripts and compared entrywise with "
                "|trans(pick p i) - c*base(i)| <= 1e-8*max(1,max|c*base|); fit/objective with |a-b| <= 1e-8*max(1,|b|); iteration "
-               "counts equal; for the seed pair raw parameters, returned start and fit must be identical (tolerance 0). "
-               "cp_als final fit under printing is recomputed from innerprod (A-43): compared at tolerance, not exactly.")
+               "counts equal; for the seed pair raw parameters, returned start and fit must be identical (tolerance 0), except "
+               "tucker_als whose eigsh/ARPACK start vector is not driven by numpy's seed: returned start identical, model and fit at "
+               "tolerance. cp_als / tucker_als fits are compared through q = (1-fit)^2 (the quantity under the code's square root; "
+               "near an exact fit the root turns 1e-16 into 1e-8). cp_als final fit under printing is recomputed from innerprod "
+               "(A-43): rounding-level, compared at tolerance. cp_apr additionally: per-sweep KKT violations at tolerance.")
 ASSUMPTIONS = ["'up to rounding' is read as 1e-8 relative to the largest model entry on runs of <= 5 outer iterations over "
                "well-conditioned small integer data; long runs where rounding differences amplify are out of range"]
 
@@ -282,8 +288,8 @@ def gen_cases(rng, tier):
     for alg, n in (("cp_als", 3), ("cp_apr_mu", 2), ("cp_apr_pdnr", 2), ("cp_apr_pqnr", 2), ("hosvd", 2), ("tucker_als", 2), ("gcp", 1)):
         for j in range(n * k):
             b = base_run(rng, alg)
-            if alg != "hosvd" and alg != "gcp" and j % 2 == 1:
-                b = to_sparse(rng, b, "random") if alg != "hosvd" else b
+            if alg not in ("hosvd", "gcp") and j % 2 == 1:
+                b = to_sparse(rng, b, "random")
             if "maxiters" in b["opts"] and j % 3 == 0:
                 b["opts"]["maxiters"] = 5
             for pr in ((1, 3, 6) if alg == "hosvd" else (1, 2, 5)):
